@@ -1,7 +1,7 @@
 (* C02 - equality and structural predicates decide what they claim. *)
 From Coq Require Import QArith Qcanon ZArith NArith List Bool.
 From OFV Require Import Base.Cplx Model.SymbolicOp Model.LadderOp Model.Program Model.Predicates Model.MajoranaOp
-  Thm.C02.IsClose Thm.C02.Bounded Thm.C03.NormalOrderB.
+  Thm.C02.IsClose Thm.C02.Bounded Thm.C03.NormalOrderB Model.NormalOrder Thm.C03.NormalOrderFix.
 Close Scope Qc_scope. Close Scope Q_scope.
 Import ListNotations.
 
@@ -31,3 +31,9 @@ Proof. exact majorana_sort_sound_4_4. Qed.
 Theorem C02_is_normal_ordered_iff_fixed : forallb no_pred_ok (words_upto 3 4) = true.
 Proof. exact is_normal_ordered_iff_fixed_3_4. Qed.
 Print Assumptions C02_is_normal_ordered_iff_fixed.
+
+(* [F] is_normal_ordered answers True only on fixed points of normal ordering, for words of every length over any modes *)
+Theorem C02_is_normal_ordered_implies_fixed : forall t c, is_normal_ordered_fermi [(t, c)] = true -> small_tol (Cadd C0 c) = false ->
+  no_fermi_term t c = [(t, c)].
+Proof. intros t c H. apply normal_ordered_word_fixed. unfold is_normal_ordered_fermi in H. cbn [forallb fst] in H. rewrite andb_true_r in H. exact H. Qed.
+Print Assumptions C02_is_normal_ordered_implies_fixed.
